@@ -122,6 +122,17 @@ def no_global_state(ctx, rule):
     ctx.floor(rule, "crate", "struct fields scanned", n_fields, 60)
 
 
+def wire_types_derived_only(ctx, rule):
+    """The structs of the JSON wire format carry only derived serde code: no hand-written (de)serialiser
+    (`deserialize_with`, `serialize_with`, `with`, `skip_serializing_if` helpers other than Option::is_none) sits in
+    src/jsontypes.rs. A custom function there can make the reader front end (owned input) and the slice front end
+    (borrowable input) disagree, or make what is written differ from what is read."""
+    own = sorted(b.path for b in ctx.facts.bodies if b.promoted is None and b.path.startswith("jsontypes::") and not b.path.startswith("jsontypes::_") and b.kind in ("Fn", "AssocFn", "Closure") and not b.derived)
+    ctx.check(not own, rule, "jsontypes", "derived-only", "module jsontypes contains no hand-written function", detail=str(own)[:300])
+    n = len([b for b in ctx.facts.bodies if b.promoted is None and b.path.startswith("jsontypes::_")])
+    ctx.floor(rule, "jsontypes", "derived serde bodies seen", n, 20)
+
+
 def iterator_overrides(ctx, rule):
     """The crate's iterators define `next` only: every other Iterator method (nth, step_by, skip, count, last, ...)
     is the provided one built on `next`, so what `next` is shown to do is what all of them do."""
